@@ -79,7 +79,7 @@ def run_logger(binary, workdir, data, chunks, pause_ms, slow_disk=None, log_even
     return rc, bytes(out), rec
 
 
-def run_logger_live(binary, workdir, bursts, wait_s=4.0):
+def run_logger_live(binary, workdir, bursts, wait_s=4.0, gap_s=0.0):
     """A live stream: stdin stays open and idle after each burst; what has been fed must come out of stdout while
     the input is silent (a pass-through that holds data back until more input or end of input arrives withholds
     it for as long as the source is quiet).  Returns (rc, [(fed so far, delivered when the wait ended)], out, rec, data)."""
@@ -105,7 +105,7 @@ def run_logger_live(binary, workdir, bursts, wait_s=4.0):
     fed, seen = 0, []
     data = b"".join(bursts)
     try:
-        for b in bursts:
+        for bi, b in enumerate(bursts):
             p.stdin.write(b)
             p.stdin.flush()
             fed += len(b)
@@ -118,6 +118,8 @@ def run_logger_live(binary, workdir, bursts, wait_s=4.0):
                 time.sleep(0.02)
             with lock:
                 seen.append((fed, len(out)))
+            if gap_s and bi < len(bursts) - 1:
+                time.sleep(gap_s)   # the source is silent for a while; the input stays open
         p.stdin.close()
     except BrokenPipeError:
         pass
@@ -137,7 +139,7 @@ def run_logger_live(binary, workdir, bursts, wait_s=4.0):
 def run(res, args):
     res.rule = ("the built rtcmlogger binary: stdin fed through a pipe (empty, 1 B, 8095, 8096, 8097, 20 000, 100 000 random bytes, 6 MB and more, "
                 "RTCM streams) with chunk sizes 1..65536 and pauses 0/1/5 ms, stdout captured, the day's record file read after the "
-                "process has exited; every case repeated to sample the exit race; live streams (bursts, also of exact multiples of the 8096-byte block, with the input open and idle in between: what was fed must have come out within 4 s of silence); plus the repository's start() in-process (go test "
+                "process has exited; every case repeated to sample the exit race; live streams (bursts, also of exact multiples of the 8096-byte block, with the input open and idle in between: what was fed must have come out within 4 s of silence; one stream with 6 s of silence between its bursts); plus the repository's start() in-process (go test "
                 "-overlay; newLogWriter replaced) built with -race, with inputs up to 1.5 MB, a record writer that stalls, and input that keeps arriving for more than two seconds (a slow disk: the "
                 "recorder blocks in Write while the copy loop runs ahead), also with packets shorter than the block arriving a few ms apart and the input ending while the backlog is queued; "
                 "non-trivial = at least 2 blocks of input")
@@ -206,7 +208,7 @@ def run(res, args):
             sizes_l = [[8096], [16192, 100], [300, 8096 * 3]][k]
         live.append([gen.rand_bytes(rng, n) for n in sizes_l])
     with ThreadPoolExecutor(max_workers=6) as ex:
-        live_results = list(ex.map(lambda ib: run_logger_live(binary, os.path.join(wd, "live%d" % ib[0]), ib[1]), enumerate(live)))
+        live_results = list(ex.map(lambda ib: run_logger_live(binary, os.path.join(wd, "live%d" % ib[0]), ib[1], gap_s=(6.0 if ib[0] == 1 else 0.0)), enumerate(live)))
     for bursts, (rc, seen, out, rec, data) in zip(live, live_results):
         res.evaluations += 1
         res.count("live stream: bursts with idle, open input in between")
